@@ -59,6 +59,17 @@ def short(path):
     return "::".join(segs[-2:])
 
 
+def _has_rec(t):
+    st = [t]
+    while st:
+        x = st.pop()
+        if isinstance(x, tuple):
+            if x == ("rec",):
+                return True
+            st.extend(x)
+    return False
+
+
 class Tracer:
     def __init__(self, facts, body, parent_tracer=None):
         self.facts = facts
@@ -112,6 +123,7 @@ class Tracer:
                     if targets[i] is not None:
                         self.defs[targets[i]].append(("swap", b.idx, 1 - i))
         self._memo = {}
+        self._memo_rec = {}
         self._agg_site = None
 
     # ------------------------------------------------------------------ closure env
@@ -309,7 +321,9 @@ class Tracer:
             seen = frozenset()
         if l in seen:
             return ("rec",)
-        if l in self._memo:
+        if l in self._memo and (not seen or not self._memo_rec.get(l)):
+            # a memoised term that contains a cycle marker was unrolled relative to *its* root: re-using it inside another
+            # local's expansion would make the shape of that term depend on which local was asked for first
             return self._memo[l]
         seen2 = seen | {l}
         parts = []
@@ -342,8 +356,9 @@ class Tracer:
             res = ("undef", l)
         else:
             res = _phi(parts)
-        if not seen:  # only memoise top-level (cycle-free) results
+        if not seen:  # only memoise top-level results
             self._memo[l] = res
+            self._memo_rec[l] = _has_rec(res)
         return res
 
     def rvalue(self, rv, seen, site=None):
